@@ -194,10 +194,30 @@ pub proof fn lemma_pigeon(dom: Set<SliceIndex>, l: int)
 }
 
 // struct BlockstoreImpl (src/consensus/blockstore.rs) with the per-slot data kept and everything else opaque
-#[verifier::external_body] pub struct BlockstoreOther { _p: () }      // shredder pool, event channel
+// the shredder pool (checkout of a pooled RegularShredder) and the event channel to Votor, as a ghost log of sent events
+#[verifier::external_body] pub struct ShredderPool { _p: () }
+#[verifier::external_body] pub struct ShredderGuard { _p: () }
+#[verifier::external_body] pub struct EventChannel { _p: () }
+impl ShredderPool {
+    // `self.shredders.checkout().expect("should have a shredder because of exclusive access")`: ASSUMED never empty under &mut self
+    #[verifier::external_body] pub fn verif_checkout(&self) -> (r: ShredderGuard) { unimplemented!() }
+}
+impl ShredderGuard {
+    #[verifier::external_body] pub fn verif_as_mut(&mut self) -> (r: &mut RegularShredder) { unimplemented!() }   // `&mut guard` (DerefMut)
+}
+impl EventChannel {
+    pub uninterp spec fn sent(&self) -> Seq<BlockstoreEvent>;
+}
 pub struct BlockstoreImpl {
     pub block_data: BTreeMap<Slot, SlotBlockData>,
-    pub other: BlockstoreOther,
+    pub shredders: ShredderPool,
+    pub votor_channel: EventChannel,
+}
+// number of InvalidBlock(slot) announcements in an event log
+pub open spec fn count_invalid(log: Seq<BlockstoreEvent>, slot: Slot) -> int
+    decreases log.len()
+{
+    if log.len() == 0 { 0 } else { count_invalid(log.drop_last(), slot) + (if log.last() == BlockstoreEvent::InvalidBlock(slot) { 1int } else { 0int }) }
 }
 #[verifier::external_body] pub struct DoubleMerkleProof { _p: () }
 impl DoubleMerkleTree {
@@ -215,6 +235,11 @@ impl SlotBlockData {
     }
 }
 impl BlockstoreImpl {
+    pub open spec fn flagged(&self, slot: Slot) -> bool { self.block_data@.contains_key(slot) && self.block_data@[slot].leader_misbehaved }
+    // [C13] "announces an invalid block once": an InvalidBlock(slot) event has been sent exactly for the flagged slots, once each
+    pub open spec fn flags_ok(&self) -> bool {
+        forall|slot: Slot| #[trigger] count_invalid(self.votor_channel.sent(), slot) == (if self.flagged(slot) { 1int } else { 0int })
+    }
     pub open spec fn store_wf(&self) -> bool {
         forall|s: Slot| #[trigger] self.block_data@.contains_key(s) ==> self.block_data@[s].all_wf()
     }
@@ -230,6 +255,13 @@ impl BlockstoreImpl {
     pub open spec fn has_slice(&self, id: BlockId, s: SliceIndex) -> bool {
         self.data_of(id) is Some && (self.data_of(id)->0).shreds@.contains_key(s)
     }
+}
+
+pub proof fn lemma_count_push(log: Seq<BlockstoreEvent>, ev: BlockstoreEvent, s: Slot)
+    ensures count_invalid(log.push(ev), s) == count_invalid(log, s) + (if ev == BlockstoreEvent::InvalidBlock(s) { 1int } else { 0int })
+{
+    assert(log.push(ev).drop_last() =~= log);
+    assert(log.push(ev).last() == ev);
 }
 
 pub mod code {
@@ -416,6 +448,125 @@ requires
 @*/
 }
 
+impl BlockstoreImpl {
+    // ASSUMED contract of `self.block_data.entry(slot).or_insert_with(|| SlotBlockData::new(slot))` (R5): the slot's data,
+    // created empty (not flagged, well formed) on first use
+    #[verifier::external_body]
+    pub fn slot_data_mut(&mut self, slot: Slot) -> (r: &mut SlotBlockData)
+        ensures
+            old(self).block_data@.contains_key(slot) ==> *r == old(self).block_data@[slot],
+            !old(self).block_data@.contains_key(slot) ==> !r.leader_misbehaved && r.all_wf() && r.slot == slot,
+            final(self).block_data@ == old(self).block_data@.insert(slot, *final(r)),
+            final(self).votor_channel == old(self).votor_channel,
+    { unimplemented!() }
+    // ASSUMED contract of the channel send inside send_blockstore_event (`votor_channel.send(event).await.expect(..)`)
+    #[verifier::external_body]
+    pub fn verif_channel_send(&mut self, event: BlockstoreEvent)
+        ensures
+            final(self).votor_channel.sent() == old(self).votor_channel.sent().push(event),
+            final(self).block_data == old(self).block_data,
+    { unimplemented!() }
+
+/*@ extract src/consensus/blockstore.rs :: impl BlockstoreImpl/fn send_blockstore_event
+props C13
+ret r
+elide-async
+sig `&self` => `&mut self`
+rewrite[R9] `Some(block_info.clone())` => `Some(verif_clone_block_info(block_info))`
+rewrite[R8] `self.votor_channel .send(event) .expect("votor should not drop the event receiver");` => `self.verif_channel_send(event);`
+ensures
+        final(self).votor_channel.sent() == old(self).votor_channel.sent().push(event),
+        final(self).block_data == old(self).block_data,
+        r == (match event { BlockstoreEvent::Block { slot, block_info } => Some(block_info), _ => None }),
+        forall|s: Slot| #[trigger] count_invalid(final(self).votor_channel.sent(), s)
+            == count_invalid(old(self).votor_channel.sent(), s) + (if event == BlockstoreEvent::InvalidBlock(s) { 1int } else { 0int }),
+after `self.verif_channel_send(event);`
+        proof {
+            assert forall|s: Slot| #[trigger] count_invalid(self.votor_channel.sent(), s)
+                == count_invalid(old(self).votor_channel.sent(), s) + (if ev0 == BlockstoreEvent::InvalidBlock(s) { 1int } else { 0int }) by {
+                lemma_count_push(old(self).votor_channel.sent(), ev0, s);
+            }
+        }
+before `let block_info = match &event {`
+        let ghost ev0 = event;
+@*/
+
+/*@ extract src/consensus/blockstore.rs :: impl Blockstore for BlockstoreImpl/fn flag_leader_misbehavior
+props C13
+elide-async
+requires
+        old(self).flags_ok(),
+ensures
+        // [C13.invalid_block_announced_exactly_once]
+        final(self).flags_ok(),
+        final(self).flagged(slot),
+        forall|s: Slot| s != slot ==> (#[trigger] final(self).flagged(s) == old(self).flagged(s)),
+        old(self).flagged(slot) ==> final(self).votor_channel.sent() == old(self).votor_channel.sent(),
+        !old(self).flagged(slot) ==> final(self).votor_channel.sent() == old(self).votor_channel.sent().push(BlockstoreEvent::InvalidBlock(slot)),
+before `if self.slot_data_mut(slot).mark_leader_misbehaved() {`
+        let ghost pre = *old(self);
+blockend `if self.slot_data_mut(slot).mark_leader_misbehaved() {`
+        proof {
+            if !pre.flagged(slot) { assert(self.votor_channel.sent().drop_last() =~= pre.votor_channel.sent()); }
+            assert forall|s: Slot| #[trigger] count_invalid(self.votor_channel.sent(), s) == (if self.flagged(s) { 1int } else { 0int }) by {
+                let _ = count_invalid(pre.votor_channel.sent(), s);
+            }
+        }
+@*/
+}
+
+impl SlotBlockData {
+    // SlotBlockData::add_shred_from_repair is PROVED in unit `repair` (a Block event only for the requested hash); here only its frame matters
+    #[verifier::external_body] /* proved-elsewhere */
+    pub fn add_shred_from_repair(&mut self, hash: BlockHash, shred: ValidatedShred, shredder: &mut RegularShredder) -> (r: Result<Option<BlockstoreEvent>, AddShredError>)
+        ensures
+            final(self).leader_misbehaved == old(self).leader_misbehaved && final(self).disseminated == old(self).disseminated,
+            r matches Ok(Some(BlockstoreEvent::Block { slot, block_info })) ==> block_info.hash == hash,
+            !(r matches Ok(Some(BlockstoreEvent::InvalidBlock(_)))),
+    { unimplemented!() }
+}
+impl BlockstoreImpl {
+/*@ extract src/consensus/blockstore.rs :: impl Blockstore for BlockstoreImpl/fn add_shred_from_dissemination
+props C13 C12
+ret r
+elide-async
+rewrite[R8] `self .shredders .checkout() .expect("should have a shredder because of exclusive access")` => `self.shredders.verif_checkout()`
+rewrite[R8] `&mut shredder` => `shredder.verif_as_mut()`
+requires
+        old(self).flags_ok(),
+        old(self).block_data@.contains_key(shred.spec_payload().header.slot) ==> old(self).block_data@[shred.spec_payload().header.slot].disseminated.wf(),
+        shred.spec_payload().shred_index.0 < TOTAL_SHREDS && shred.spec_payload().header.slice_index.0 < 1024,
+ensures
+        final(self).flags_ok(),
+        // [C13.nothing_from_dissemination_after_misbehaviour] once the leader of the slot is flagged, nothing is accepted or announced
+        old(self).flagged(shred.spec_payload().header.slot) ==> r is Err && final(self).votor_channel.sent() == old(self).votor_channel.sent(),
+        // [C13.equivocation_or_invalid_shred_flags_the_leader C12.equivocation_or_invalid_shred_flags_the_leader]
+        (r matches Err(e) && (e == AddShredError::Equivocation || e == AddShredError::InvalidShred)) ==> final(self).flagged(shred.spec_payload().header.slot),
+        // a flag is never taken back
+        forall|s: Slot| old(self).flagged(s) ==> #[trigger] final(self).flagged(s),
+before `let slot = shred.payload().header.slot;`
+        let ghost pre = *old(self);
+@*/
+/*@ extract src/consensus/blockstore.rs :: impl Blockstore for BlockstoreImpl/fn add_shred_from_repair
+props C13 C14
+ret r
+elide-async
+rewrite[R8] `self .shredders .checkout() .expect("should have a shredder because of exclusive access")` => `self.shredders.verif_checkout()`
+rewrite[R8] `&mut shredder` => `shredder.verif_as_mut()`
+requires
+        old(self).flags_ok(),
+ensures
+        final(self).flags_ok(),
+        // [C14.repaired_block_reported_only_under_its_own_hash]
+        r matches Ok(Some(info)) ==> info.hash == hash,
+        // [C13.equivocation_or_invalid_shred_flags_the_leader]
+        (r matches Err(e) && (e == AddShredError::Equivocation || e == AddShredError::InvalidShred)) ==> final(self).flagged(shred.spec_payload().header.slot),
+        forall|s: Slot| old(self).flagged(s) ==> #[trigger] final(self).flagged(s),
+@*/
+}
+#[verifier::external_body]
+pub fn verif_clone_block_info(b: &BlockInfo) -> (r: BlockInfo) ensures r == *b { unimplemented!() }
+
 impl BlockData {
 /*@ extract src/consensus/blockstore/slot_block_data.rs :: impl BlockData/fn try_reconstruct_block
 props C13 C10
@@ -600,6 +751,7 @@ ensures
         // [C13.duplicate_position_is_refused]
         (old(self).shreds@.contains_key(shred.spec_payload().header.slice_index)
             && row_at(old(self).shreds@, shred.spec_payload().header.slice_index, shred.spec_payload().shred_index.0 as int) is Some) ==> r is Err,
+        !(r matches Ok(Some(BlockstoreEvent::InvalidBlock(_)))),
         // [C13.block_announced_only_when_completed_now]
         r matches Ok(Some(BlockstoreEvent::Block { slot, block_info })) ==> slot == old(self).slot && old(self).completed is None
             && final(self).completed is Some && (final(self).completed->0).0 == block_info.hash && block_info.parent.0.0 < old(self).slot.0,
@@ -676,6 +828,7 @@ requires
         shred.spec_payload().shred_index.0 < TOTAL_SHREDS && shred.spec_payload().header.slice_index.0 < 1024,
 ensures
         final(self).disseminated.wf(),
+        !(r matches Ok(Some(BlockstoreEvent::InvalidBlock(_)))),
         // [C13.nothing_from_dissemination_after_misbehaviour]
         old(self).leader_misbehaved ==> r is Err && final(self).disseminated == old(self).disseminated,
         final(self).leader_misbehaved == old(self).leader_misbehaved && final(self).repaired == old(self).repaired,
